@@ -180,6 +180,21 @@ fn dist_of<D: Distance>(a: &[f32], b: &[f32]) -> (f32, f32) {
     (built, D::normalized_distance(built, a.len()))
 }
 
+fn bq_dist_records(out: &mut String, a: &[f32], b: &[f32]) {
+    let mut va = String::new();
+    push_vec(&mut va, a);
+    let mut vb = String::new();
+    push_vec(&mut vb, b);
+    for m in Metric::BQ {
+        let (built, norm) = with_metric!(m, D => dist_of::<D>(a, b));
+        out.push_str(&format!("dist {} {} {} {}\nres ", m.name(), a.len(), va, vb));
+        push_bits(out, built.to_bits());
+        out.push(' ');
+        push_bits(out, norm.to_bits());
+        out.push('\n');
+    }
+}
+
 fn dist_records(out: &mut String, a: &[f32], b: &[f32]) {
     let mut va = String::new();
     push_vec(&mut va, a);
@@ -205,6 +220,7 @@ pub fn run(
     seed: u64,
     tier: Tier,
     max_len: usize,
+    bq_max_len: usize,
     rounds: usize,
     out: &mut dyn Write,
 ) -> Result<(), String> {
@@ -252,12 +268,27 @@ pub fn run(
             for fam in KFAMILIES {
                 let (a, b) = gen_pair(&mut r, fam, d);
                 dist_records(&mut buf, &a, &b);
+                // the same pair the other way round: the driver checks the symmetry of the reported values
+                dist_records(&mut buf, &b, &a);
                 // a vector against itself, and against its opposite
-                if fam == KFamily::Generic || fam == KFamily::Huge {
+                if fam == KFamily::Generic || fam == KFamily::Huge || fam == KFamily::Zeros || fam == KFamily::Cancel {
                     dist_records(&mut buf, &a, &a);
                     let neg: Vec<f32> = a.iter().map(|x| -x).collect();
                     dist_records(&mut buf, &a, &neg);
                 }
+            }
+            w(out, &buf)?;
+            buf.clear();
+        }
+    }
+    // the quantised metrics at EVERY dimension 1..=max_len (all remainders modulo 8 and 64, every word count):
+    // a pair, the swapped pair, and a vector against itself
+    for round in 0..rounds.max(1) {
+        for d in 1..=bq_max_len {
+            let fam = if (d + round) % 3 == 0 { KFamily::Zeros } else { KFamily::Generic };
+            let (a, b) = gen_pair(&mut r, fam, d);
+            for (x, y) in [(&a, &b), (&b, &a), (&a, &a)] {
+                bq_dist_records(&mut buf, x, y);
             }
             w(out, &buf)?;
             buf.clear();
